@@ -290,6 +290,19 @@ def _said_values(node: Any) -> list:
             p = ('undefined',)
         if p is not None:
             out.append(('=' + n, p))
+    # the list and mapping views: what they enumerate (plain items by value, nodes by type)
+    for n, m in I.members_of(node).items():
+        if m.kind not in ('string_view', 'custom_view', 'meta_view', 'filtered_view'):
+            continue
+        try:
+            view = getattr(node, n)
+            if m.kind == 'meta_view':
+                items = [(k, plain(v) or type(v).__name__) for k, v in view.items()]
+            else:
+                items = [plain(x) or type(x).__name__ for x in view]
+        except (decimal.DecimalException, ZeroDivisionError):
+            items = ('undefined',)
+        out.append(('=' + n, items))
     return out
 
 
